@@ -314,7 +314,25 @@ func genBackoff(repo, out string) {
 			}
 		}
 		if foundSelect >= 0 {
-			pre, ok := ifChain(append(append([]ast.Stmt{}, stmts[idx:foundSelect]...),
+			// a timer made before the wait (`t := time.NewTimer(d)`, possibly with `defer t.Stop()`)
+			// and received from as `<-t.C` is the same wait as `<-time.After(d)`
+			timers := map[string]ast.Expr{}
+			var preStmts []ast.Stmt
+			for _, st := range stmts[idx:foundSelect] {
+				if as, ok := st.(*ast.AssignStmt); ok && len(as.Lhs) == 1 && len(as.Rhs) == 1 {
+					if c, ok := as.Rhs[0].(*ast.CallExpr); ok && exprStr(c.Fun) == "time.NewTimer" && len(c.Args) == 1 {
+						if id, ok := as.Lhs[0].(*ast.Ident); ok {
+							timers[id.Name] = c.Args[0]
+							continue
+						}
+					}
+				}
+				if d, ok := st.(*ast.DeferStmt); ok && strings.HasSuffix(exprStr(d.Call.Fun), ".Stop") {
+					continue
+				}
+				preStmts = append(preStmts, st)
+			}
+			pre, ok := ifChain(append(preStmts,
 				&ast.ReturnStmt{Results: []ast.Expr{ast.NewIdent(bname)}}), vars)
 			if ok {
 				zero = pre
@@ -335,6 +353,15 @@ func genBackoff(repo, out string) {
 					if len(s.Rhs) == 1 {
 						if u, ok := s.Rhs[0].(*ast.UnaryExpr); ok && u.Op == token.ARROW {
 							rx = u.X
+						}
+					}
+				}
+				if se, ok := rx.(*ast.SelectorExpr); ok && se.Sel.Name == "C" {
+					if id, ok := se.X.(*ast.Ident); ok && timers[id.Name] != nil {
+						if s, ok := intExpr(timers[id.Name], vars); ok {
+							sleep = s
+						} else {
+							g.fail("time.NewTimer argument")
 						}
 					}
 				}
@@ -1335,10 +1362,17 @@ func genExits(repo, out string) {
 	putOk, closeOk := false, false
 	if fd := findMethod(fc, "clientRegionCache", "put"); fd != nil && len(fd.Body.List) >= 2 {
 		if es, ok := fd.Body.List[0].(*ast.ExprStmt); ok && exprStr(es.X) == "rcc.m.Lock()" {
-			if is, ok := fd.Body.List[1].(*ast.IfStmt); ok && exprStr(is.Cond) == "rcc.closed" && len(is.Body.List) == 2 {
+			if is, ok := fd.Body.List[1].(*ast.IfStmt); ok && exprStr(is.Cond) == "rcc.closed" && len(is.Body.List) >= 2 {
 				u, ok1 := is.Body.List[0].(*ast.ExprStmt)
-				r, ok2 := is.Body.List[1].(*ast.ReturnStmt)
-				if ok1 && ok2 && exprStr(u.X) == "rcc.m.Unlock()" && len(r.Results) == 1 && exprStr(r.Results[0]) == "nil" {
+				r, ok2 := is.Body.List[len(is.Body.List)-1].(*ast.ReturnStmt)
+				// between the unlock and the return: nothing but log lines
+				onlyLogs := true
+				for _, st := range is.Body.List[1 : len(is.Body.List)-1] {
+					if es, ok := st.(*ast.ExprStmt); !ok || !strings.Contains(exprStr(es.X), "logger.") {
+						onlyLogs = false
+					}
+				}
+				if ok1 && ok2 && onlyLogs && exprStr(u.X) == "rcc.m.Unlock()" && len(r.Results) == 1 && exprStr(r.Results[0]) == "nil" {
 					putOk = true
 				}
 			}
